@@ -201,6 +201,12 @@ where
         num_vars: Option<usize>,
         rng: &mut R,
     ) -> Result<Self::UniversalParams, Self::Error> {
+        // A multilinear polynomial in zero variables is a single coefficient, which the matrix
+        // layout (at least two rows) and the tensor split of the query point cannot represent:
+        // `commit` would succeed and `open` abort.
+        if num_vars == Some(0) {
+            return Err(Error::InvalidNumberOfVariables);
+        }
         let leaf_hash_param = <C::LeafHash as CRHScheme>::setup(rng).unwrap();
         let two_to_one_hash_param = <C::TwoToOneHash as TwoToOneCRHScheme>::setup(rng)
             .unwrap()
